@@ -16,7 +16,22 @@ GLUE = lb.GLUE.replace("pub trait ISocketConnection {}", """
 pub trait ISocketConnection {
   fn try_send_multipart_owned_sync(&self, msgs: FrameBatch) -> (r: Result<(), (FrameBatch, ZmqError)>)
     ensures r matches Err(p) ==> p.0@ == msgs@;
+  // blocking variant (async in the real trait; awaited immediately at its only call site here -> R8 `.await` dropped)
+  // (proved for ScaConnectionIface in unit iface: a would-block answer hands the batch back unchanged)
+  fn send_multipart_owned(&self, msgs: FrameBatch) -> (r: Result<(), (FrameBatch, ZmqError)>)
+    ensures r matches Err(p) ==> ((p.1 is ResourceLimitReached) ==> p.0@ == msgs@);
 }
+// LoadBalancer::wait_for_connection: returns when some peer is registered; while waiting other tasks add/remove peers,
+// so the protected state is arbitrary (but well-formed) afterwards
+impl LoadBalancer {
+  #[verifier::external_body]
+  pub fn wait_for_connection(&mut self) -> (r: Result<(), ZmqError>)
+    requires old(self).state.wf()
+    ensures final(self).state.wf(), r is Ok ==> final(self).state.peers@.len() > 0
+  { unimplemented!() }
+}
+#[verifier::external_body]
+pub fn verif_max(a: usize, b: usize) -> (r: usize) ensures r == (if a >= b { a } else { b }) { unimplemented!() }
 """)
 
 GLUE += """
@@ -74,6 +89,28 @@ parts = [
              "proof { lemma_rot_step(old(self).load_balancer.state.next_idx as int, tried, count as int); tried = tried + 1; }"),
             ("fin", "re:(?m)^    Err\\(\\(msgs__m, ZmqError::ResourceLimitReached\\)\\)", 0, "before",
              "proof { assert(tried == count); lemma_rot_full(old(self).load_balancer.state.next_idx as int, count as int); }")]),
+  Fn(OO, "route_message", impl=IMPL, emit_impl="impl OutgoingMessageOrchestrator", sig_sub=SIG + [("async fn", "fn")], mut_params=["msgs"],
+     attrs=["#[verifier::exec_allows_no_decreases_clause]"],
+     requires=["old(self).load_balancer.state.wf()"],
+     ensures=[
+       ("C13:wf", "final(self).load_balancer.state.wf()"),
+       ("C13+C14:wouldblock_returns_the_batch_intact", "r matches Err(p) ==> ((p.1 is ResourceLimitReached) ==> p.0@ == msgs@)"),
+     ],
+     extra=[("R8", "self.load_balancer.connection_count().max(1)", "verif_max(self.load_balancer.connection_count(), 1)", 2),
+            ("R8", "self.load_balancer.wait_for_connection().await", "self.load_balancer.wait_for_connection()", 1),
+            ("R8", "block_peer.iface.send_multipart_owned(msgs).await", "block_peer.iface.send_multipart_owned(msgs)", 1)],
+     loops={0: {
+       "invariant": [
+         "self.load_balancer.state.wf()", "msgs__m@ == msgs@",
+         # the sweep bound always covers the current rotation; `attempts` counts the peers found full since the sweep (re)started
+         ("C13:sweep_bound_covers_every_peer", "max_attempts >= self.load_balancer.state.peers@.len() && max_attempts >= 1"),
+         "attempts < max_attempts",
+       ]}},
+     hints=[
+       # a sender may block on a peer only after EVERY peer of the rotation was tried and found full in this sweep
+       ("C13:blocks_only_after_a_full_sweep", "re:let block_peer = match self\\.load_balancer\\.get_next_connection\\(\\)", 0, "before",
+        "proof { assert(attempts >= self.load_balancer.state.peers@.len()); }"),
+     ]),
 ]
 
 FNS = {p.name: p for p in parts if isinstance(p, Fn)}
